@@ -340,6 +340,7 @@ func verifRunCmdCase(dir string, idx int, c verifCmdCase) (obs string, tags []st
 	}()
 
 	connect := "ok"
+	tStart := time.Now()
 	var closeFn func() error
 	var rwc *pipeRWC
 	var cs *ClientSession
@@ -450,8 +451,10 @@ func verifRunCmdCase(dir string, idx int, c verifCmdCase) (obs string, tags []st
 			}
 		}
 	} else {
-		// Connect failed: the SDK must already have shut the child down; Close is not ours to call
+		// Connect failed: the SDK must already have shut the child down (its Close ran inside Connect, after
+		// tStart: the grace periods are judged from there); Close is not ours to call
 		eb = 0
+		t0 = tStart
 	}
 	if res == "nil" || res == "exiterr" {
 		// cmd.Wait returned and its result travelled through resChan to Close: ProcessState is set
@@ -698,7 +701,7 @@ func TestVerifCmdTransport(t *testing.T) {
 	}
 	// … then random combinations of all axes
 	pick := func(xs ...string) string { return xs[rng.Intn(len(xs))] }
-	for n := verifN(6, 60); n > 0; n-- {
+	for n := verifN(4, 60); n > 0; n-- {
 		c := base(pick("conn", "sess"), pick("x0", "x3", "slow", "ign"), pick("dfl", "h0", "hslow", "ign"))
 		c.tdms = 200 + rng.Intn(5)*50
 		if rng.Intn(5) == 0 {
